@@ -409,7 +409,7 @@ def plan_C03(prop, tier, seed, t0):
         dict(name="enum2", engine="extract", args=["--enum", "2,6,cth", "--stride", 24 if q else 2], **T),
         # hook H4: every phase of Extractor::extract with diagram, circuit and frontier, validated as behaviours of spec/Extract.tla
         dict(name="steps", engine="xsteps", module="Trace_XSteps.tla", cfg="Trace_XSteps.cfg",
-             args=["--random", 80 if q else 400, "--alphabet", "ct", "--minq", 2, "--maxq", 3, "--minlen", 6, "--maxlen", 30] + ([] if q else ["--thorough"])),
+             args=["--random", 80 if q else 200, "--alphabet", "ct", "--minq", 2, "--maxq", 3, "--minlen", 6, "--maxlen", 30] + ([] if q else ["--thorough"])),
         dict(name="steps_enum", engine="xsteps", module="Trace_XSteps.tla", cfg="Trace_XSteps.cfg",
              args=["--enum", "2,4,cth", "--stride", 9 if q else 4]),
         # source circuits with rz / rx / parity-phase angles that are not multiples of pi/4 through the promised strategy x extractor
